@@ -13,19 +13,19 @@ import (
 // storedFields returns field name → rendered value for every field store into struct values in f.
 func storedFields(w *World, f *ssa.Function, typeName string) map[string]string {
 	got := map[string]string{}
-	for _, b := range f.Blocks {
-		for _, in := range b.Instrs {
-			st, ok := in.(*ssa.Store)
-			if !ok {
-				continue
-			}
-			fa, ok := st.Addr.(*ssa.FieldAddr)
-			if !ok {
-				continue
-			}
-			if n := derefNamed(fa.X.Type()); n != nil && (typeName == "" || n.Obj().Name() == typeName) {
-				got[fieldName(fa.X.Type(), fa.Field)] = w.expr(st.Val)
-			}
+	// stores made by f, or by a helper introduced later that f calls (the assignments carved out into a
+	// function of their own): values are rendered in f's terms (parameters replaced by the arguments)
+	for _, di := range w.deepInstrs(f, 2) {
+		st, ok := di.in.(*ssa.Store)
+		if !ok {
+			continue
+		}
+		fa, ok := st.Addr.(*ssa.FieldAddr)
+		if !ok {
+			continue
+		}
+		if n := derefNamed(fa.X.Type()); n != nil && (typeName == "" || n.Obj().Name() == typeName) {
+			got[fieldName(fa.X.Type(), fa.Field)] = w.exprWith(st.Val, di.sub)
 		}
 	}
 	return got
